@@ -7,10 +7,12 @@
 //! The real stdout/stderr of the process are whatever the caller gave it; lace prints program and
 //! debugger output there, so the driver points them at /dev/null.
 
+mod corpus;
 mod dbgmon;
 mod exec;
 mod progs;
 mod refasm;
+mod refcmd;
 mod refdbg;
 mod refvm;
 mod util;
@@ -25,6 +27,12 @@ mod c10;
 mod c11;
 mod c12;
 mod c13;
+mod c14;
+mod c15;
+mod c17;
+mod c18;
+mod c19;
+mod c20;
 mod c16;
 
 use std::time::Instant;
@@ -165,6 +173,34 @@ fn main() {
         "C16" => {
             c16::run(&cfg, &mut col);
             sv(c16::FLOORS)
+        }
+        "C15" => {
+            c15::run(&cfg, &mut col);
+            sv(c15::FLOORS)
+        }
+        "C17" => {
+            c17::run(&cfg, &mut col);
+            sv(c17::FLOORS)
+        }
+        "C14" => {
+            c14::run(&cfg, &mut col);
+            sv(c14::FLOORS)
+        }
+        "C20" => {
+            c20::run(&cfg, &mut col);
+            sv(c20::FLOORS)
+        }
+        "CORPUS" => {
+            corpus::run(&cfg, &mut col);
+            Vec::new()
+        }
+        "C18" => {
+            c18::run(&cfg, &mut col);
+            sv(c18::FLOORS)
+        }
+        "C19" => {
+            c19::run(&cfg, &mut col);
+            sv(c19::FLOORS)
         }
         "C04" => {
             c04::run(&cfg, &mut col);
